@@ -19,10 +19,13 @@ F10 `COO.reshape`: the body of `if any(d == -1 for d in shape):` — the `-1` in
     hand-written meaning is given inline below (generated files import only Lib/Py.v, Lib/PyExt.v).
     Should the source go back to a float `/`, the translator (which has no float operator)
     aborts and every theorem about reshape stops compiling.
+    `GCXS.reshape` has its own textual copy of the inference and of the size test (in the other
+    order: inference, `self.shape == shape` shortcut, size test); both are translated as well.
 """
 
 UT = "sparse/numba_backend/_utils.py"
 CO = "sparse/numba_backend/_coo/core.py"
+GC = "sparse/numba_backend/_compressed/compressed.py"
 
 # reduce(operator.mul, (d for d in shape if d != -1), 1): product of the entries other than -1
 PROD_NOT_M1 = (
@@ -50,6 +53,16 @@ FILES = {
                  "tuple([d if d != -1 else extra for d in shape])": SUBST_M1,
              }),
         dict(name="g_reshape_size_mismatch", file=CO, func="COO.reshape", callable=False,
+             selector=("if", "self.size != reduce(operator.mul, shape, 1)"), params=["shape", "size"]),
+        # GCXS.reshape carries its own copy of the same inference (integer since commit 0bffb82)
+        dict(name="g_gcxs_reshape_infer", file=GC, func="GCXS.reshape", callable=False,
+             selector=("if", "any((d == -1 for d in shape))"), params=["shape", "size"], result=["shape"],
+             extern={
+                 "reduce(operator.mul, (d for d in shape if d != -1), 1)": PROD_NOT_M1,
+                 "self.size": "Ok size",
+                 "tuple([d if d != -1 else extra for d in shape])": SUBST_M1,
+             }),
+        dict(name="g_gcxs_reshape_size_mismatch", file=GC, func="GCXS.reshape", callable=False,
              selector=("if", "self.size != reduce(operator.mul, shape, 1)"), params=["shape", "size"]),
     ],
 }
